@@ -126,7 +126,7 @@ class Report:
               f"violations={len(self.violations)} {json.dumps(summary)}")
         if self.harness_errors:
             print(f"HARNESS-ERROR: {self.harness_errors} block(s) failed inside the harness")
-            return 2
+            return 1 if self.violations else 2
         return 1 if self.violations else 0
 
     def _write_replay(self, v):
